@@ -1,5 +1,6 @@
 """C10 — Type hierarchy queries agree with the declared single-inheritance tree."""
 from harness import sessions, tsgen
+from harness.common import bud
 from harness.sessions import SB
 
 PROP = "C10"
@@ -122,9 +123,9 @@ def run(ctx, out, budget):
                 "pairs of the sample, get_type/contains_type for full, short, ambiguous and unknown names, and an object "
                 "identity walk. Non-trivial = distinct histories that created >= 3 user types.")
     rng = ctx.rng(0)
-    n = 60 if budget == "quick" else 4800
+    n = bud(budget, 60, 4800)
     sess = [gen_session(rng, rng.randint(3, 25)) for _ in range(n)]
-    sess += [gen_session(rng, rng.randint(40, 70)) for _ in range(4 if budget == "quick" else 240)]
+    sess += [gen_session(rng, rng.randint(40, 70)) for _ in range(bud(budget, 4, 240))]
     evaluate(ctx, out, sess, "h")
     out.partial = ["object identity of reachable Type objects: implementation-side observation only"]
 
